@@ -586,7 +586,32 @@ fn gen_itp_params(rng: &mut Rng) -> (f64, f64, f64) {
 
 fn random_case(rng: &mut Rng, rep: &mut Report) {
     let mut p = gen_problem(rng);
-    let tol = rng.log10(-12.0, -2.0);
+    let mut tol = rng.log10(-12.0, -2.0);
+    // one sine problem in six: the function moved to r of size 1e5 ... 1e9 and bracketed around its root r + pi/c
+    // (not a floating-point number, so no iterate lands on it exactly and no value vanishes), with a tolerance of
+    // 1e-12 ... 1e-9.5 - at or below the spacing of the floats there. No bracket can become narrower than two
+    // neighbouring numbers; the call has to return all the same (D47: brent and itp did not), and the answer
+    // is judged with the floating-point floor of the window, 4 eps max(|a|, |b|)
+    if p.f.kind == Kind::Sin && (p.a.to_bits() >> 9) % 6 == 1 {
+        let bits = p.a.to_bits() >> 13;
+        let big = 10f64.powf(5.0 + 4.0 * ((bits % 1024) as f64 / 1024.0)) * if (bits >> 10) % 2 == 0 { 1.0 } else { -1.0 };
+        let per = std::f64::consts::PI / p.f.c;
+        let u1 = 0.05 + 0.85 * (((bits >> 11) % 256) as f64 / 256.0);
+        let u2 = 0.05 + 0.85 * (((bits >> 19) % 256) as f64 / 256.0);
+        let (na, nb) = (big + per - u1 * per, big + per + u2 * per);
+        let descending = p.a > p.b;
+        p.f.r = big;
+        p.end_root = false;
+        if descending {
+            p.a = nb;
+            p.b = na;
+        } else {
+            p.a = na;
+            p.b = nb;
+        }
+        tol = 10f64.powf(-12.0 + 2.5 * (((bits >> 27) % 1024) as f64 / 1024.0));
+        rep.count("problems/root_of_size_1e5_to_1e9_with_a_tolerance_near_the_float_spacing", 1);
+    }
     // one monotone problem in sixteen: a valid bracket that is already narrower than the tolerance (any of its
     // points is a correct answer; "nothing to do" is not an error)
     if matches!(p.f.kind, Kind::Lin | Kind::Cubic | Kind::Tanh | Kind::CubicPlus | Kind::Quintic) && !p.end_root && (p.a.to_bits() >> 9) % 16 == 0 {
@@ -1004,6 +1029,7 @@ pub fn thresholds(ctx: &Ctx, rep: &Report) -> Vec<Threshold> {
     let q = |a: f64, b: f64| ctx.tier.pick(a, b);
     let mut t = vec![];
     t.push(Threshold { what: "brackets over several roots of a sine with one end value already below the tolerance".into(), required: ctx.tier.pick(500.0, 5_000.0), observed: rep.counter("problems/several_roots_and_an_end_value_below_tol") as f64 });
+    t.push(Threshold { what: "roots of size 1e5 ... 1e9 with a tolerance at or below the spacing of the floats".into(), required: ctx.tier.pick(800.0, 8_000.0), observed: rep.counter("problems/root_of_size_1e5_to_1e9_with_a_tolerance_near_the_float_spacing") as f64 });
     t.push(Threshold { what: "valid brackets already narrower than the tolerance".into(), required: ctx.tier.pick(500.0, 5_000.0), observed: rep.counter("problems/bracket_narrower_than_the_tolerance") as f64 });
     t.push(Threshold { what: "brackets with a finite end value above 1e290".into(), required: ctx.tier.pick(15_000.0, 150_000.0), observed: rep.counter("problems/huge_finite_end_value") as f64 });
     t.push(Threshold { what: "steep exponentials whose finite end values differ by more than 1e17".into(), required: ctx.tier.pick(1_000.0, 10_000.0), observed: rep.counter("problems/steep_exponential_with_end_values_1e17_apart") as f64 });
